@@ -3,20 +3,24 @@ package world
 import "fmt"
 
 // C24 — fee and claim payments are one HTLC over the swap's own channel to that
-// channel's peer, for the invoice's exact amount (lnd adapter: tier 2). Judged on
-// the SendPaymentV2 requests the real adapter emits.
+// channel's peer, for the invoice's exact amount. Judged on the SendPaymentV2
+// requests the real lnd adapter emits (tier 2) and on the sendpay requests the
+// real clightning adapter emits (tier 3).
 type monC24 struct{ base }
 
 func (m *monC24) Name() string { return "C24" }
 
 func (m *monC24) OnObs(w *World, o *Obs) {
-	if o.Kind != "pay.call" || o.Pay == nil || o.Pay.Lnd == nil || !isReal(w, o.Node) {
+	if o.Kind != "pay.call" || o.Pay == nil || (o.Pay.Lnd == nil && o.Pay.Cln == nil) || !isReal(w, o.Node) {
 		return
 	}
 	if o.Pay.Fn != "RebalancePayment" && o.Pay.Fn != "PayInvoiceViaChannel" {
 		return
 	}
 	req := o.Pay.Lnd
+	if req == nil {
+		req = &LndPayReq{}
+	}
 	kind := "claim"
 	if o.Pay.Fn == "PayInvoiceViaChannel" {
 		kind = "fee"
@@ -43,6 +47,24 @@ func (m *monC24) OnObs(w *World, o *Obs) {
 	}
 	if scid == "" {
 		w.Violate("C24", "payment-without-swap:"+kind, "node %d emitted a %s payment request for invoice %.8s that belongs to none of its swaps", o.Node, kind, body.H)
+		return
+	}
+	if rt := o.Pay.Cln; rt != nil {
+		// CLN: the route handed to sendpay is the payment
+		w.Probe("C24:cln-route-checked:" + kind)
+		if rt.Hops != 1 {
+			w.Violate("C24", "cln-route-not-one-hop:"+kind, "node %d: the %s payment of the swap on channel %s is sent along a route of %d hops", o.Node, kind, scid, rt.Hops)
+			return
+		}
+		if rt.Channel != NormScid(scid) {
+			w.Violate("C24", "cln-route-not-over-the-swap-channel:"+kind, "node %d: the %s payment of the swap on channel %s is routed over channel %q", o.Node, kind, scid, rt.Channel)
+		}
+		if rt.AmountMsat != body.A || (rt.ReqMsat != 0 && rt.ReqMsat != body.A) {
+			w.Violate("C24", "cln-amount-not-the-invoice-amount:"+kind, "node %d: the %s payment sends %d msat (recorded as %d) for an invoice of %d msat", o.Node, kind, rt.AmountMsat, rt.ReqMsat, body.A)
+		}
+		if rt.Parts != 0 {
+			w.Violate("C24", "cln-multi-part:"+kind, "node %d: the %s payment is sent as part %d of a multi-part payment", o.Node, kind, rt.Parts)
+		}
 		return
 	}
 	want := lndChanID(scid)
